@@ -43,6 +43,7 @@ type decProtoCase struct {
 	Prefix []int  `json:"prefix,omitempty"`
 	Depth  int    `json:"depth,omitempty"`
 	Seq    []int  `json:"seq,omitempty"`  // replay
+	Fault  bool   `json:"fault,omitempty"` // error-path alphabet (see dpFaultAlphabet)
 	Ref    bool   `json:"ref,omitempty"`  // PAR1: the set is written by the independent reference writer (comment in the index, an entry not saved in the parity set between the saved ones, a zero-length file) instead of by gopar's Create
 	Disk   bool   `json:"disk,omitempty"` // exported constructors on a real directory (else: the same objects on the owned in-memory filesystem)
 }
@@ -61,11 +62,24 @@ const (
 	dpRestoreVol0
 	dpLoadBoth
 	dpNOps
+	// only in the fault alphabet (in-memory runs): a Repair whose 1st / 2nd file write is torn half-way
+	dpRepairTorn1 = dpNOps
+	dpRepairTorn2 = dpNOps + 1
 )
 
-var dpNames = []string{"LoadFileData", "LoadParityData", "Counts", "Repair", "Repair(check)", "delete a", "change a", "delete b", "restore data files", "delete first recovery file", "restore first recovery file", "LoadFileData+LoadParityData"}
+// dpFaultAlphabet: the operations of the error-path search.
+var dpFaultAlphabet = []int{dpLoadBoth, dpCounts, dpRepair, dpRepairTorn1, dpRepairTorn2, dpDelA, dpDelB, dpChangeA}
+
+var dpNames = []string{"LoadFileData", "LoadParityData", "Counts", "Repair", "Repair(check)", "delete a", "change a", "delete b", "restore data files", "delete first recovery file", "restore first recovery file", "LoadFileData+LoadParityData", "Repair(1st file write torn)", "Repair(2nd file write torn)"}
 
 func decProtoGen(fmtName string, depth int, disk bool, emit func(*decProtoCase)) {
+	if !disk {
+		for _, a := range dpFaultAlphabet {
+			for _, b := range dpFaultAlphabet {
+				emit(&decProtoCase{Fmt: fmtName, Prefix: []int{a, b}, Depth: depth, Fault: true})
+			}
+		}
+	}
 	for a := 0; a < dpNOps; a++ {
 		for b := 0; b < dpNOps; b++ {
 			emit(&decProtoCase{Fmt: fmtName, Prefix: []int{a, b}, Depth: depth, Disk: disk})
@@ -89,7 +103,14 @@ func decProtoRun(c *decProtoCase, r *core.Rec, wrap func(*decProtoCase) interfac
 			}
 			return
 		}
-		for op := 0; op < dpNOps; op++ {
+		alphabet := dpFaultAlphabet
+		if !c.Fault {
+			alphabet = nil
+			for op := 0; op < dpNOps; op++ {
+				alphabet = append(alphabet, op)
+			}
+		}
+		for _, op := range alphabet {
 			seq = append(seq, op)
 			rec()
 			seq = seq[:len(seq)-1]
@@ -113,7 +134,7 @@ func decProtoOne(c *decProtoCase, seq []int, r *core.Rec, wrap func(*decProtoCas
 		for _, o := range seq {
 			ops = append(ops, dpNames[o])
 		}
-		r.ViolateWith("decoder-protocol:"+sig, fmt.Sprintf(f, a...)+"\nsequence: "+strings.Join(ops, ", "), wrap(&decProtoCase{Fmt: c.Fmt, Seq: append([]int{}, seq...), Disk: c.Disk, Ref: c.Ref}))
+		r.ViolateWith("decoder-protocol:"+sig, fmt.Sprintf(f, a...)+"\nsequence: "+strings.Join(ops, ", "), wrap(&decProtoCase{Fmt: c.Fmt, Seq: append([]int{}, seq...), Disk: c.Disk, Ref: c.Ref, Fault: c.Fault}))
 	}
 	var p2 *scen.P2Set
 	var p1 *scen.P1Set
@@ -280,6 +301,46 @@ func decProtoOne(c *decProtoCase, seq []int, r *core.Rec, wrap func(*decProtoCas
 				}
 				key += fmt.Sprintf("C%d/%d", fc.UsableDataFileCount, fc.UsableParityFileCount)
 			}
+		case dpRepairTorn1, dpRepairTorn2:
+			// a Repair interrupted by a torn write: it must not report success for the file whose write failed; the
+			// object is then stale by definition (reload needed). What it leaves behind is the next calls' problem.
+			if root != "" {
+				continue
+			}
+			k, failAt := 0, 1+op-dpRepairTorn1
+			cur.Hook = func(index int, kind, path string, data []byte) *envfs.Fault {
+				if kind == "write" {
+					k++
+					if k == failAt {
+						return &envfs.Fault{Err: envfs.ErrInjected, Partial: len(data) / 2, Kind: "torn-write"}
+					}
+				}
+				return nil
+			}
+			var rerr error
+			pi := core.Catch(func() {
+				if d2 != nil {
+					_, rerr = d2.Repair(false)
+				} else {
+					_, rerr = d1.Repair(false)
+				}
+			})
+			cur.Hook = nil
+			fileView, parityView = "-", "-"
+			if pi != nil {
+				if fresh {
+					viol("repair-panic:"+pi.Frame, "%s", pi.Value)
+				} else {
+					r.Count("decproto_panic_outside_wellformed_use", 1)
+				}
+				return
+			}
+			if fresh && k >= failAt && rerr == nil {
+				viol("torn-write-not-reported", "file write %d of this Repair failed half-way, but Repair returned nil", failAt)
+				return
+			}
+			r.Count("decproto_interrupted_repairs", 1)
+			key += "Rf"
 		case dpRepair, dpRepairDC:
 			lost, capacity := 0, 0
 			var damaged []string
